@@ -38,6 +38,7 @@ TRUSTED = [
     "axioms: none (Print Assumptions of every property theorem is checked to be 'Closed under the global context')",
     "extraction: ExtrOcamlBasic only (bool, option, unit, list, prod, sumbool, sumor -> OCaml; andb/orb inlined); N/positive/nat stay Coq datatypes; OCaml 4.13.1",
     "hand-written model coq/{Screen,Parser,Utf8,World}.v: faithfulness to src/screen.rs, parser.rs, parser_listener.rs, byte_parser.rs is CHECKED by the per-step correspondence run, not proved",
+    "coq/Safe.v (which Rust additions/subtractions are checked, guarded or saturating): by inspection of src/screen.rs, CHECKED by comparing its panic predictions with the real crate on out-of-contract safety probes (C01)",
     "driver/driver.ml (parsing of dumps, injection of implementation states), harness/ (state dumper, recording listener), tools/check.py",
     "oracles: unicode-width, unicode-normalization values dumped from the real crates for the code points used; encoding_rs decoder modelled; generator coroutine modelled as explicit state",
     "rustc/cargo; debug build with overflow-checks and debug-assertions",
@@ -233,7 +234,7 @@ def evidence(prop, tier, seed, t0, cov, violations, assumptions):
                 level = c["level_claimed"]["category"]
     except Exception:
         pass
-    cov.setdefault("explanation", "partial: model-level theorems in coq/Properties/%s.v (closed under the global context) + exploration of the real implementation (overflow-checked build, watchdog) — Rust-level panic freedom is explored, not proved" % prop if level == "other" else "property theorems in coq/Properties/%s.v (closed under the global context), plus table lemmas, statement oracle and correspondence" % prop)
+    cov.setdefault("explanation", "partial: model-level theorems in coq/Properties/%s.v (closed under the global context), among them the absence of failing checked arithmetic (coq/Safe.v, whose panic predictions are compared with the real crate by the safety probes counted below) + exploration of the real implementation (overflow-checked build, watchdog) — unwrap/expect/index sites, coroutine, mutex, decoder library and loop termination are explored, not proved" % prop if level == "other" else "property theorems in coq/Properties/%s.v (closed under the global context), plus table lemmas, statement oracle and correspondence" % prop)
     ev = {"property_id": prop, "tier": tier, "seed": seed, "level": level, "coverage": cov,
           "assumptions": assumptions, "wall_s": round(time.time() - t0, 2), "violations": violations}
     json.dump(ev, open(os.path.join(V, "evidence", prop + ".json"), "w"), indent=1)
@@ -341,7 +342,7 @@ def main():
     # the driver must have consumed every record the harness emitted (a silently skipped record would hide a failure)
     if r["done"] and r["dstats"]:
         hh, dd = r["hstats"], r["dstats"]
-        for hk, dk in (("probes", "probes"), ("event_histories", "event_histories"), ("state_histories", "state_histories"), ("display_probes", "display_probes"), ("init_checks", "init_checks")):
+        for hk, dk in (("probes", "probes"), ("event_histories", "event_histories"), ("state_histories", "state_histories"), ("display_probes", "display_probes"), ("init_checks", "init_checks"), ("safety_probes", "safety_probes")):
             want = hh.get(hk, 0) + (hh.get("probes_via_parser", 0) if hk == "probes" else 0)
             if dk in dd and dd.get(dk, 0) != want:
                 broken.append("driver processed %d %s records, the harness emitted %d" % (dd.get(dk, 0), dk, want))
@@ -359,7 +360,7 @@ def main():
         (known_hits if k else new_stmt).append((x, k))
     ev_theorems = names
     d = r["dstats"]; h = r["hstats"]
-    evaluations = sum(h.get(k, 0) for k in ("probes", "probes_via_parser", "display_probes", "event_histories", "state_histories", "init_checks",
+    evaluations = sum(h.get(k, 0) for k in ("probes", "probes_via_parser", "display_probes", "event_histories", "state_histories", "init_checks", "safety_probes",
                                            "purity_pairs", "ris_pairs", "chunkings", "decode_runs", "osc_cases", "byte_cases", "api_cases", "big_cases", "osc_byte_cases", "exhaustive_short_streams"))
     distinct = d.get("distinct_nontrivial", 0) + sum(h.get(k, 0) for k in ("streams", "byte_strings", "osc_cases", "purity_pairs", "ris_pairs", "byte_cases", "api_cases")) \
         + d.get("event_histories", 0) + d.get("state_histories", 0)
@@ -392,7 +393,7 @@ def main():
         sys.exit(1)
     for x, k in known_hits[:20]:
         print("KNOWN-FINDING: property=%s %s" % (prop, k[1]))
-    corr = [x for x in other if kind_of(x) in ("model", "events", "final", "hidden", "driver", "spec", "dirty", "wf", "panic", "display", "display-impure")]
+    corr = [x for x in other if kind_of(x) in ("model", "events", "final", "hidden", "driver", "spec", "dirty", "wf", "panic", "display", "display-impure", "safe")]
     if broken or corr:
         note = "; ".join(broken) if broken else "model/implementation correspondence broke in the plan of %s" % prop
         path = write_replay(prop, tier, seed, corr, note + " — no input found on which the statement of %s itself fails" % prop)
